@@ -151,6 +151,14 @@ def _helper_for(idx: PyIndex, fi: FuncInfo, call: ast.Call, tenv: Optional[Dict[
     if isinstance(f, ast.Attribute) and isinstance(f.value, ast.Name) and f.value.id in ('self', 'cls') and fi.cls:
         m = idx.lookup_method(fi.cls, f.attr)
         return m
+    # `other._helper()` inside a method: a private method of the enclosing class that no other class of the package defines is that method, whatever the receiver
+    # is called (the usual case is `other` in a comparison, already tested to be an instance of the same class)
+    if isinstance(f, ast.Attribute) and isinstance(f.value, ast.Name) and fi.cls and f.attr.startswith('_') and not f.attr.startswith('__'):
+        m = idx.lookup_method(fi.cls, f.attr)
+        if m is not None:
+            definers = [c for c in idx.classes.values() if f.attr in c.methods]
+            if len(definers) == 1:
+                return m
     return None
 
 
